@@ -244,7 +244,9 @@ def run_shards(specs, workers: int = 16, timeout_s: float | None = None):
 
     ctx = mp.get_context("spawn")
     results = []
-    with ProcessPoolExecutor(max_workers=min(workers, max(1, len(specs))), mp_context=ctx) as ex:
+    # one fresh process per shard: Hypothesis mixes constants harvested from the modules present in sys.modules into its
+    # draws, so a re-used worker would make a shard's cases depend on which shard ran before it
+    with ProcessPoolExecutor(max_workers=min(workers, max(1, len(specs))), mp_context=ctx, max_tasks_per_child=1) as ex:
         futs = [ex.submit(_worker, s) for s in specs]
         for f in futs:
             results.append(f.result(timeout=timeout_s))
